@@ -103,6 +103,25 @@ theorem C06_complete_quiescent (cfg : RCfg) (k : Key) (P : Bytes) (hist : List E
     exact ⟨norm rb, h2, c1, c2⟩
   · simp [pendingOf, hq] at hp
 
+/-- **C06_at_most_once (re-injection de-duplication).** With no coverage assumption at all and for
+    histories containing any number of complete covers of the bundle — the same fragmentation again,
+    or differently cut ones whose fragments have fresh identities and therefore complete a second and
+    a third reassembly —: at most one bundle of key `k` is ever delivered. The reassembled bundle is
+    re-injected through `recv_bundle`, its identity (source, time, sequence; not a fragment) enters the
+    seen set at the first delivery, and every later re-injection is absorbed there
+    (`Inv.seenNone`, `idle_key_step`). Together with `C06_complete`: exactly one. -/
+theorem C06_at_most_once (cfg : RCfg) (k : Key) (P : Bytes) (hist : List Ev)
+    (hcons : ∀ b ∈ kfrags k hist, ConsFrag cfg k P b) :
+    (deliveredOf k (run cfg AState.init hist)).length ≤ 1 ∧
+    ((run cfg AState.init hist).seen ⟨k, none⟩ = true ↔ deliveredOf k (run cfg AState.init hist) ≠ []) := by
+  have hI := inv_of_run cfg k P hist hcons
+  refine ⟨?_, hI.seenNone⟩
+  rcases hI.del with h | ⟨rb, _, h⟩
+  · show (proj k (run cfg AState.init hist)).delivered.length ≤ 1
+    rw [h]; simp
+  · show (proj k (run cfg AState.init hist)).delivered.length ≤ 1
+    rw [h]; simp
+
 /-- **C06_no_mix (frame).** An event that is not about key `k` — a bundle or fragment of another
     source / creation time / sequence number, or the re-injection of another bundle — leaves
     everything about `k` untouched: table entry, seen identities, pending re-injections, deliveries.
@@ -202,6 +221,31 @@ theorem C06_complete_overlap_instances :
   · exact consFrag_mk 0 10 (by omega)
   · exact consFrag_mk 0 20 (by omega)
   · exact consFrag_mk 20 10 (by omega)
+
+/-- three complete covers of the same bundle by different fragmentations, the idle callbacks run after
+    each: [0,10)+[10,30) · idle · [0,15)+[15,30) · idle · [0,30) · idle -/
+def histCovers : List Ev :=
+  [.recv (mkFrag srcW 0 10), .recv (mkFrag srcW 10 20), .idle 0,
+   .recv (mkFrag srcW 0 15), .recv (mkFrag srcW 15 15), .idle 0,
+   .recv (mkFrag srcW 0 30), .idle 0]
+
+/-- the same with all callbacks at the end: three re-injections pending, the first to run is
+    delivered, the others are absorbed by the seen set -/
+def histCoversLate : List Ev :=
+  [.recv (mkFrag srcW 0 10), .recv (mkFrag srcW 10 20), .recv (mkFrag srcW 0 15), .recv (mkFrag srcW 15 15),
+   .recv (mkFrag srcW 0 30), .idle 2, .idle 0, .idle 0]
+
+/-- the second and third cover complete a reassembly again (their fragments have fresh identities),
+    yet the bundle is delivered once -/
+theorem C06_second_cover_absorbed :
+    (deliveredOf kW (run cfgR AState.init histCovers)).map FBundle.payload = [some PW] ∧
+    (run cfgR AState.init histCovers).pending = [] ∧
+    (run cfgR AState.init (histCovers.take 5)).pending.length = 1 ∧
+    (pendingOf kW (run cfgR AState.init (histCoversLate.take 5))).length = 3 ∧
+    (deliveredOf kW (run cfgR AState.init histCoversLate)).map FBundle.payload = [some PW] ∧
+    (run cfgR AState.init histCoversLate).pending = [] := by
+  refine ⟨by decide +kernel, by decide +kernel, by decide +kernel, by decide +kernel, by decide +kernel,
+    by decide +kernel⟩
 
 /-- **What reassembly does to the primary block (after fix dffcae7; formerly D28).** The synthesised
     bundle's primary block is the offset-0 fragment's with the fragment flag cleared and the CRC value
